@@ -1,7 +1,7 @@
 (* C20 — Synchronous file logging is write-through: returned calls survive a crash. Statements only.
    The property IS the absence of a user-space buffer; the theorems are near-immediate on the two-level
    sink model, and the weight is the correspondence (SIGKILL / os.Exit at generated crash points). *)
-From LogV Require Import Base.Bytes Model.Sink Proofs.SinkProofs.
+From LogV Require Import Base.Bytes Model.Sink Proofs.SinkProofs Model.RollingConc Proofs.RollingConcProofs.
 Open Scope nat_scope.
 
 Theorem c20_no_user_buffer : forall ops, sinv (fold_left sstep ops sink_init).
@@ -12,6 +12,19 @@ Theorem c20_write_through : forall ops l,
   In l (acked (fold_left sstep ops sink_init)) -> In l (crash (fold_left sstep ops sink_init)).
 Proof. exact acked_survive_crash. Qed.
 Print Assumptions c20_write_through.
+
+(* the rolling file appender, on the interleaving model of Write/rotate (any number of goroutines, rotations and failed file
+   creations at any moment): a call that has returned without hitting a closed descriptor (which needs two overlapping
+   rotations, C13/C19) has its line in a file's kernel-side data, and every later state - in particular the one the process
+   is killed in - still has it there *)
+Theorem c20_rolling_returned_write_is_in_a_file : forall t0 s t n, creach (c_start t0) s ->
+  n < c_seq s t -> ~ In (t, n) (c_lost s) -> exists f, f < c_nfiles s /\ In (t, n) (map fst (c_fdata s f)).
+Proof. exact returned_write_is_in_a_file. Qed.
+Print Assumptions c20_rolling_returned_write_is_in_a_file.
+
+Theorem c20_rolling_returned_write_stays : forall s s' f p, creach s s' -> In p (map fst (c_fdata s f)) -> In p (map fst (c_fdata s' f)).
+Proof. exact returned_write_stays. Qed.
+Print Assumptions c20_rolling_returned_write_stays.
 
 Example c20_ex : crash (fold_left sstep [SWriteBegin 1; SWriteBegin 2; SReturn 2; SReturn 1; SReturn 3] sink_init) = [1; 2]%N /\
                  acked (fold_left sstep [SWriteBegin 1; SWriteBegin 2; SReturn 2; SReturn 1; SReturn 3] sink_init) = [2; 1]%N.
